@@ -37,6 +37,8 @@ func runC04(p *Prog, r *Result) {
 	r.Rule("R04c", "a rewrite that discards a node tests or keeps every non-position, non-comment field of it", 12)
 	r.Rule("R04e", "every test operator whose right-hand side the interpreter evaluates as a pattern is protected from the simplifier's operand rewrites (listed, or normalised to a listed operator before the switch)", 3)
 	checkPatternOperatorAgreement(p, r, "R04e")
+	r.Rule("R04f", "the `$name` to `name` inlining is never applied to an array index or to an arithmetic node inside one", 5)
+	checkIndexNotInlined(p, r, si, "R04f")
 	r.Rule("R04d", "string builders used across loop iterations in the simplifier are reset on every path back to the loop head", 0)
 
 	simpT := lookupType(pkg, "simplifier")
@@ -147,7 +149,7 @@ func runC04(p *Prog, r *Result) {
 								changes = append(changes, site{n, b, i, "element store " + exprString(y)})
 							}
 						case *ast.Ident:
-							if params[info.ObjectOf(y)] && x.Tok == token.ASSIGN {
+							if params[info.ObjectOf(y)] && x.Tok == token.ASSIGN && !identityIdiom(x, li) {
 								changes = append(changes, site{n, b, i, "parameter " + y.Name + " replaced"})
 							}
 						}
@@ -157,12 +159,47 @@ func runC04(p *Prog, r *Result) {
 						if id, ok := ast.Unparen(res).(*ast.Ident); ok && params[info.ObjectOf(id)] {
 							continue // hands back what it was given (possibly replaced above, which is a change of its own)
 						}
+						// hands its own argument on to another method of the simplifier, which pairs its changes with the flag itself
+						if c, ok := ast.Unparen(res).(*ast.CallExpr); ok && methodObj[calleeOf(info, c)] && len(c.Args) == 1 {
+							if id, ok := ast.Unparen(c.Args[0]).(*ast.Ident); ok && params[info.ObjectOf(id)] {
+								continue
+							}
+						}
 						if fd.Type.Results != nil && len(fd.Type.Results.List) > 0 {
 							changes = append(changes, site{n, b, i, "returns " + exprString(res) + " instead of the argument"})
 						}
 					}
 				}
 			}
+		}
+		// `r := s.method(a); if r != a { … }`: every method pairs returning something other than its argument with the
+		// flag (this very rule), so inside that branch the flag has been set by the callee
+		resultDiffers := func(e *FEdge) bool {
+			if e.Cond == nil || e.Tag != nil || e.TypeCase {
+				return false
+			}
+			be, ok := ast.Unparen(e.Cond).(*ast.BinaryExpr)
+			if !ok || !((be.Op == token.NEQ && e.Pol) || (be.Op == token.EQL && !e.Pol)) {
+				return false
+			}
+			for _, pair := range [][2]ast.Expr{{be.X, be.Y}, {be.Y, be.X}} {
+				id, ok := stripConv(info, pair[0]).(*ast.Ident)
+				if !ok {
+					continue
+				}
+				def := singleDef(info, fd, info.ObjectOf(id))
+				if def == nil {
+					continue
+				}
+				c, ok := ast.Unparen(def).(*ast.CallExpr)
+				if !ok || !methodObj[calleeOf(info, c)] || len(c.Args) != 1 {
+					continue
+				}
+				if exprString(stripConv(info, c.Args[0])) == exprString(stripConv(info, pair[1])) {
+					return true
+				}
+			}
+			return false
 		}
 		for _, c := range changes {
 			ok := false
@@ -171,7 +208,12 @@ func runC04(p *Prog, r *Result) {
 					ok = true
 				}
 			}
-			r.Check(ok, "R04a", fmt.Sprintf("%s#change: %s", fk, c.what), c.n.Pos(), "dominated by (or in the same block as) modified = true",
+			how := "dominated by (or in the same block as) modified = true"
+			if !ok && underEdges(g, c.blk, resultDiffers) {
+				ok = true
+				how = "only reached when a simplifier method returned something other than its argument, which that method pairs with modified = true"
+			}
+			r.Check(ok, "R04a", fmt.Sprintf("%s#change: %s", fk, c.what), c.n.Pos(), how,
 				"the tree is changed here and no `modified = true` dominates it: Simplify can return false although it changed the tree")
 		}
 		for _, m := range mods {
@@ -775,6 +817,10 @@ func reachableFromAvoidingBlock(g *FGraph, b *FBlock, i int, head *FBlock, stop 
 }
 
 var c04Controls = []Control{
+	{Name: "binary-expression-inside-an-index-inlined", Rule: "R04f", WantKey: "visit#BinaryArithm: inlining #1 only outside an index", File: "syntax/simplify.go",
+		Mutate: ctlReplaceAnywhere("\tcase *BinaryArithm:\n\t\tif !s.inIndex[node] {\n\t\t\tnode.X = s.inlineSimpleParams(node.X)\n\t\t\tnode.Y = s.inlineSimpleParams(node.Y)\n\t\t}\n", "\tcase *BinaryArithm:\n\t\tnode.X = s.inlineSimpleParams(node.X)\n\t\tnode.Y = s.inlineSimpleParams(node.Y)\n")},
+	{Name: "array-element-index-inlined", Rule: "R04f", WantKey: "visit#ArrayElem.Index is marked and never inlined", File: "syntax/simplify.go",
+		Mutate: ctlReplaceAnywhere("\tcase *ArrayElem:\n\t\ts.markIndex(node.Index) // same as above.\n", "\tcase *ArrayElem:\n\t\tnode.Index = s.inlineSimpleParams(s.removeParensArithm(node.Index))\n")},
 	{Name: "match-short-normalised-after-the-switch", Rule: "R04e", WantKey: "TsMatchShort protected", File: "syntax/simplify.go",
 		Mutate: ctlChain(
 			ctlReplaceAnywhere("\t\tif node.Op == TsMatchShort {\n\t\t\ts.modified = true\n\t\t\tnode.Op = TsMatch\n\t\t}\n\t\tswitch node.Op {", "\t\tswitch node.Op {"),
